@@ -63,6 +63,51 @@ def classify(p):
     return 'flow'
 
 
+TIME_NATIVE = r"""
+import json, io, contextlib, warnings
+import numpy as np
+warnings.simplefilter('ignore')
+from exactpack.solvers.guderley import Guderley
+g = 3.0
+with contextlib.redirect_stdout(io.StringIO()): s = Guderley(gamma=g, geometry=3, rho0=1.0)
+r0 = np.array([1.2, 1.6]); t0 = -0.3; h = 1e-4
+def F(r, t):
+    with contextlib.redirect_stdout(io.StringIO()): a = s(np.array(r, dtype=float), t)
+    return a['density'], a['velocity']
+d0, u0 = F(r0, t0); dp, up_ = F(r0 + h, t0); dm, um = F(r0 - h, t0); dtp, _ = F(r0, t0 + h); dtm, _ = F(r0, t0 - h)
+res_user = (dtp - dtm) / (2 * h) + (dp * up_ - dm * um) / (2 * h) + 2 * d0 * u0 / r0                      # mass equation in the wrapper's own (r, t)
+res_laz = 0.750024322 * (dtp - dtm) / (2 * h) + (dp * up_ - dm * um) / (2 * h) + 2 * d0 * u0 / r0        # the same with d/dt_Lazarus = 0.750024322 d/dt
+sc = np.abs(d0 * u0 / r0) + 1e-300
+print(json.dumps({'reproduced': bool(np.max(np.abs(res_user) / sc) > 1e-3), 'normalised mass residual in the wrapper time t': [float(q) for q in np.abs(res_user) / sc],
+                  'normalised mass residual in Lazarus time': [float(q) for q in np.abs(res_laz) / sc], 'points r': [float(q) for q in r0], 't': t0}))
+"""
+
+
+PDE_NATIVE = r"""
+import json, io, contextlib, warnings
+import numpy as np
+warnings.simplefilter('ignore')
+from exactpack.solvers.guderley import Guderley
+g = 3.0; C = 0.750024322; bad = {}; n = 0
+for geom in (2, 3):
+    with contextlib.redirect_stdout(io.StringIO()): s = Guderley(gamma=g, geometry=geom, rho0=1.0)
+    def F(r, t):
+        with contextlib.redirect_stdout(io.StringIO()): a = s(np.array(r, dtype=float), t)
+        return a['density'], a['velocity'], a['pressure']
+    r0 = np.array([1.45, 1.6, 1.8]); t0 = -0.3; h = 1e-4
+    d0, u0, p0 = F(r0, t0); dp, up_, pp = F(r0 + h, t0); dm, um, pm = F(r0 - h, t0); dtp, utp, ptp = F(r0, t0 + h); dtm, utm, ptm = F(r0, t0 - h)
+    ddt = lambda a, b: C * (a - b) / (2 * h)          # derivative with respect to Lazarus time (documented unit of the returned fields)
+    mass = ddt(dtp, dtm) + (dp * up_ - dm * um) / (2 * h) + (geom - 1) * d0 * u0 / r0
+    mom = ddt(utp, utm) + u0 * (up_ - um) / (2 * h) + (pp - pm) / (2 * h) / d0
+    ent = ddt(ptp / dtp ** g, ptm / dtm ** g) + u0 * (pp / dp ** g - pm / dm ** g) / (2 * h)
+    for nm, res, sc in (('mass', mass, np.abs(d0 * u0 / r0)), ('momentum', mom, np.abs(u0 * u0 / r0)), ('entropy', ent, np.abs(u0 * p0 / d0 ** g / r0))):
+        w = np.abs(res) / (sc + 1e-300); ok = d0 > 1.0 + 1e-9          # only points behind the converging shock
+        n += int(np.sum(ok))
+        if np.any(ok) and np.max(w[ok]) > 1e-4: bad['%s geometry=%d' % (nm, geom)] = float(np.max(w[ok]))
+print(json.dumps({'reproduced': bool(bad), 'points_behind_the_shock': n, 'normalised residuals above 1e-4': bad}))
+"""
+
+
 def unit_pde():
     """C01: the ODE right-hand side g(xi, y) is the similarity reduction of the Euler equations for the physical fields that state() builds from (V, C, R):
     substituting rho = rho0 R(xi), u = V(xi) r^(1-lambda)/(-xi lambda), c = C(xi) r^(1-lambda)/(-xi lambda), p = rho c^2/gamma, xi = tau / r^lambda into the PDEs
@@ -86,6 +131,15 @@ def unit_pde():
         ps, calls = paths()
     except Unsupported as u_:
         O.append(core.Obl('C01/guderley/extraction', 'open', 'extraction', 0.0, detail=str(u_)[:300])); return res
+    from vc import propkit
+    items = []; exp = []
+    for (x_, V_, C_, R_, g_, l_, nu_) in ((-0.7, -0.6, 0.5, 3.0, 1.4, 1.395, 2), (0.3, -0.2, 0.9, 7.0, 1.67, 1.22, 1)):
+        pt = {xs: sp.Rational(str(x_)), Vs: sp.Rational(str(V_)), Cs: sp.Rational(str(C_)), Rs: sp.Rational(str(R_)), gam: sp.Rational(str(g_)), lam: sp.Rational(str(l_)), nu: sp.Integer(nu_)}
+        ex = propkit.expected_from_paths(gp, pt)
+        if ex is None: continue
+        items.append({'module': MODN, 'name': 'g', 'args': [x_, [V_, C_, R_]], 'globals': {'gamma': g_, 'lambda_': l_, 'nu': nu_}}); exp.append(ex)
+    n_, mm = propkit.tv_functions(items, exp, rtol=1e-9)
+    propkit.tv_report(res, 1, n_, mm)
     V = sp.Function('V'); C = sp.Function('C'); Rf = sp.Function('R'); X = tau / r ** lam
     flows = [p for p in ps if classify(p) == 'flow']
     for i, p in enumerate(flows):
@@ -107,10 +161,23 @@ def unit_pde():
                 O.append(core.Obl('C01/guderley/branch%d/%s' % (i, nm), 'open', 'extraction', 0.0, detail='derivative atoms left')); continue
             o = core.prove_zero('C01/guderley/branch%d/%s' % (i, nm), e, [gam > 1, Rs > 0, sp.Ne(Cs ** 2 - (Vs + 1) ** 2, 0)] + [c for c in p.pc if not c.has(xi)], extra_syms={Vs, Cs, Rs},
                                 goal_text={'pde:mass': 'rho_tau + (rho u)_r + nu rho u / r == 0', 'pde:momentum': 'u_tau + u u_r + p_r / rho == 0', 'pde:entropy': '(p/rho^gamma)_tau + u (p/rho^gamma)_r == 0'}[nm] + ' with (V, C, R)\' = g(xi, (V, C, R))')
+            if o['status'] == 'refuted': o['replay'] = PDE_NATIVE
             o.pop('cex_raw', None); O.append(o)
     # the driver: xi = (t/factorC - 1)/r^lambda and state() gets the caller's rho0, geometry, gamma
     fd = R.func_ref('exactpack/solvers/guderley/ramsey.py::guderley_1d'); src = ast.unparse(fd.node).replace(' ', '')
     ok = all(q in src for q in ('tee=t/factorC-1.0', 'targetx=tee/rpos**lambda_', 'rpos=r[i]', 'state(rpos,rho0,ngeom,gamma,lambda_,B,targetx)', 'lambda_=eexp(ngeom,gamma)', 'den[i]=deni', 'vel[i]=veli', 'pres[i]=presi'))
+    # the time variable of the returned fields vs the time argument of the solver (documented equations are written in (r, t))
+    try:
+        st = [n_ for n_ in fd.node.body if isinstance(n_, ast.Assign) and isinstance(n_.targets[0], ast.Name) and n_.targets[0].id in ('factorC', 'tee')]
+        tt = sp.Symbol('t_user', real=True)
+        def thunk2(run):
+            I = sx.Interp(run); env = sx.Env(fd.module, None, fd); env.locals['t'] = tt; I.block(st, env); return env.locals['tee']
+        tee = sp.sympify([p_ for p_ in sx.explore(thunk2, hyps=[], feas=extract.default_feas) if p_.outcome == 'return'][0].value)
+        o = core.prove_zero('C01/guderley/time_variable', sp.diff(tee, tt) - 1, [], goal_text='d(similarity time)/d(solver time argument) == 1: the returned velocity, sound speed, pressure and energy are expressed in the time unit of the argument t, so that the documented equations hold in (r, t)')
+        if o['status'] == 'refuted': o['replay'] = TIME_NATIVE
+        o.pop('cex_raw', None); O.append(o)
+    except Exception as e_:
+        O.append(core.Obl('C01/guderley/time_variable', 'open', 'extraction', 0.0, detail=str(e_)[:200]))
     O.append(core.structural('C01/guderley/driver', ok, 'guderley_1d(): tee, targetx, state call, index stores', None, 'ast-structural', 'xi = (t/factorC - 1)/r^lambda with the similarity exponent of (geometry, gamma); every point goes through state() with the caller\'s parameters'))
     return res
 
